@@ -376,3 +376,63 @@ Definition dHs_hist_eqb (c : chemdata) (mws : vec) (o : res robj) (ops : list ho
       let '(ob', oks', der') := hist_run mws ob ops in
       list_eqb Bool.eqb oks' oks && dH_list_eqb c (flat_members ob') members && dH_list_eqb c der' derived
   end.
+
+(* ====================================================================================== *)
+(* The heats of formation a compiled package works with are ARRAYS taken from the chemicals when the
+   package is compiled (thermosteam/_chemicals.py CompiledChemicals._compile) and again by
+   CompiledChemicals.refresh_constants(); `chemical.Hf = v` changes the chemical only.  Reaction.dH
+   reads the array of the reaction's package, Stream.Hf the array of the stream's package.
+   [arrB] is kept in the order of package B ([orderB]: position in B -> index of the chemical). *)
+Record pkgstate := mkPk { chemHf : vec; arrA : vec; arrB : vec }.
+Inductive pop := PSetHf (i : nat) (v : Q) | PRefreshA | PRefreshB.
+
+Definition pstep (orderB : list nat) (s : pkgstate) (o : pop) : pkgstate :=
+  match o with
+  | PSetHf i v => mkPk (upd (chemHf s) i v) (arrA s) (arrB s)
+  | PRefreshA => mkPk (chemHf s) (chemHf s) (arrB s)
+  | PRefreshB => mkPk (chemHf s) (arrA s) (map (nthq (chemHf s)) orderB)
+  end.
+Definition prun (orderB : list nat) (s : pkgstate) (ops : list pop) : pkgstate :=
+  fold_left (pstep orderB) ops s.
+Definition compiled (orderB : list nat) (hf : vec) : pkgstate := mkPk hf hf (map (nthq hf) orderB).
+
+(* ====================================================================================== *)
+(* Mixture._free_energy_args (thermosteam/mixture/mixture.py): the temperature solvers load
+   equation-of-state arguments for the phase being solved, iterate, and clear them in a `finally`.
+   While arguments are loaded, EOSMixture.H of that phase is evaluated with them (whatever the
+   composition asked for); otherwise from the composition asked for.  States are numbered by the
+   harness; [fresh k] is the enthalpy of state k from its own composition, [stale j k] what is
+   returned for state k while the arguments of state j are loaded. *)
+Record mixstate := mkM { margs : option nat }.
+Inductive mop :=
+| MRead (k : nat)                 (* H of state k is evaluated *)
+| MSolve (k : nat) (ok : bool).   (* a T solve for state k; ok = the solver returned (false: it raised) *)
+
+Section MixArgs.
+  Variable fresh : nat -> Q.
+  Variable stale : nat -> nat -> Q.
+  Definition H_eval (m : mixstate) (k : nat) : Q :=
+    match margs m with None => fresh k | Some j => stale j k end.
+  (* (mixture after, values read, "is the argument dictionary empty now") *)
+  Definition mstep (m : mixstate) (o : mop) : mixstate * list Q :=
+    match o with
+    | MRead k => (m, [H_eval m k])
+    | MSolve k ok =>
+        let m1 := mkM (Some k) in               (* _load_free_energy_args *)
+        let _ := ok in                          (* the iterations; their outcome does not matter here *)
+        (mkM None, [])                          (* finally: self._free_energy_args.clear() *)
+    end.
+  Fixpoint mrun (m : mixstate) (ops : list mop) : mixstate * list Q * list bool :=
+    match ops with
+    | [] => (m, [], [])
+    | o :: t => let (m1, r1) := mstep m o in
+                let '(m2, r2, f2) := mrun m1 t in
+                (m2, r1 ++ r2, match margs m1 with None => true | Some _ => false end :: f2)
+    end.
+End MixArgs.
+
+Definition mix_eqb (tbl : vec) (ops : list mop) (reads : vec) (flags : list bool) : bool :=
+  let '(_, r, f) := mrun (nthq tbl) (fun _ _ => 0) (mkM None) ops in
+  list_eqb Bool.eqb f flags &&
+  Nat.eqb (length r) (length reads) &&
+  forallb (fun b : bool => b) (map2 (fun a b => qapprox_scaled (Qabs b) a b) r reads).
